@@ -220,6 +220,8 @@ def scenarios(draw, *, max_machines=6, max_obs=4, max_nodes=6,
                              speeds=tuple(sorted({m['flops'] * u for m in machines})),
                              bws=tuple(sorted({m['bw'] * u for m in machines}))))}
         obs.append(o)
+    if unsorted == 'maybe':
+        unsorted = draw(st.booleans())
     if unsorted and len(obs) > 1:
         obs = list(draw(st.permutations(obs)))      # the plan need not list observations in start order
     # unit scaling: rates are per second; per-step rate = rate*u.  Volumes = rate*duration(seconds).
